@@ -422,6 +422,7 @@ func (m *Machine) doDispose(force bool) {
 		// already disposing
 		return
 	}
+	verifPoint(m, "dispose:disposing")
 	if !force {
 		whenIdle := m.WhenQueueEnds()
 		select {
@@ -434,6 +435,7 @@ func (m *Machine) doDispose(force bool) {
 		// already disposed
 		return
 	}
+	verifPoint(m, "dispose:disposed")
 
 	m.tracersMx.RLock()
 	for i := range m.tracers {
@@ -477,6 +479,7 @@ func (m *Machine) doDispose(force bool) {
 	// dispose chans
 
 	close(m.errInternal)
+	verifPoint(m, "dispose:subs")
 	m.subs.dispose()
 	for _, mut := range m.queue {
 		if !mut.IsCheck {
@@ -510,6 +513,7 @@ func (m *Machine) doDispose(force bool) {
 	// m.disposeHandlers = nil
 
 	// the end
+	verifPoint(m, "dispose:end")
 	m.cancel()
 	// fmt.Println("DISPOSED " + m.Id())
 	closeSafe(m.whenDisposed)
@@ -549,6 +553,7 @@ func (m *Machine) When(states S, ctx context.Context) <-chan struct{} {
 	if m.disposed.Load() {
 		return m.subs.Closed
 	}
+	verifPoint(m, "when:checked")
 
 	// locks
 	m.activeStatesMx.Lock()
@@ -661,6 +666,7 @@ func (m *Machine) WhenQuery(
 	if m.disposed.Load() {
 		return m.subs.Closed
 	}
+	verifPoint(m, "when:checked")
 
 	// locks
 	m.activeStatesMx.Lock()
@@ -2119,6 +2125,7 @@ func (m *Machine) processQueue() Result {
 		} else if t.IsAccepted.Load() && !t.Mutation.IsCheck {
 			// TODO optimize process only when ticks change (incl queue tick)
 			// TODO optimize: check sub ctxs also on canceled txs
+			verifPoint(m, "tx:subs")
 			m.processSubscriptions(t)
 		}
 
